@@ -1,5 +1,6 @@
 import ParryModel.Proto
 import ParryModel.C19.Model
+import ParryModel.C19.DriverTopo
 import Std.Data.HashMap
 /-! C19 protocol handlers. -/
 namespace C19
@@ -349,6 +350,6 @@ def handler (fn : String) : Option Handler :=
               near (rabs p.x) H.x && near (rabs p.y) H.y && near (rabs p.z) H.z
           | none => "fail unparsable-output")
         | none, _ => "skip bad-args" }
-  | _ => none
+  | _ => TopoDriver.handler fn
 
 end C19
